@@ -105,7 +105,8 @@ def add_constants(namespace, registry):
 
 
 def _split_prefix(symbol_str, unit_symbol_lut):
-    possible_prefix = symbol_str[0]
+    # an empty name has no prefix (the lookup that follows reports it)
+    possible_prefix = symbol_str[:1]
 
     if symbol_str[:2] == "da":
         possible_prefix = "da"
